@@ -41,7 +41,57 @@ def c20_alphabet():
                   "distinct_identifiers": sorted(seen), "alphabet": sorted(ALPHABET), "exhaustive": True}
 
 
+def replay_inputs(paths):
+    """run the real o2o_impl::expand::derive (built from /repo's working tree) on each input file; one record per file"""
+    import json
+    import os
+    import subprocess
+    verif = os.path.dirname(os.path.dirname(os.path.abspath(__file__)))
+    env = dict(os.environ, CARGO_NET_OFFLINE="true", CARGO_TARGET_DIR=os.path.join(verif, "build", "replay-target"))
+    try:
+        import shutil
+        shutil.copy(os.path.join(os.environ.get("O2O_REPO", "/repo"), "Cargo.lock"), os.path.join(verif, "replay", "Cargo.lock"))
+    except Exception:
+        pass
+    b = subprocess.run(["cargo", "build", "--release", "--offline"], cwd=os.path.join(verif, "replay"), env=env, capture_output=True, text=True)
+    exe = os.path.join(verif, "build", "replay-target", "release", "o2o-replay")
+    if b.returncode != 0 or not os.path.exists(exe):
+        return None, "replay crate does not build: " + b.stderr[-400:]
+    p = subprocess.run([exe] + paths, capture_output=True, text=True, timeout=120)
+    recs = []
+    for l in p.stdout.split("\n"):
+        l = l.strip()
+        if l.startswith("{"):
+            recs.append(json.loads(l))
+    return recs, None
+
+
+def c16_ledger():
+    """C16 ledger inputs (findings/inputs/c16_*.rs): accepted-looking inputs aimed at the preconditions that only validation is
+    supposed to establish.  TESTING, not proof: each is expanded natively; a panic is a violation of C16 with that input."""
+    import glob
+    import os
+    verif = os.path.dirname(os.path.dirname(os.path.abspath(__file__)))
+    paths = sorted(glob.glob(os.path.join(verif, "findings", "inputs", "c16_*.rs")))
+    recs, err = replay_inputs(paths)
+    if recs is None:
+        return [], {"kind": "native replay (testing, not proof)", "skipped": err}
+    viol = []
+    for r in recs:
+        if r["outcome"] == "panic":
+            name = os.path.basename(r["file"])
+            viol.append({"obligation": "no-panic@" + name, "fn": None, "props": ["C16"],
+                         "message": "the derive panicked on an input it does not reject: " + r["text"][:200],
+                         "failing_input": {"engine": "native replay of the real o2o_impl::expand::derive", "input_file": "findings/inputs/" + name,
+                                           "input": open(r["file"]).read(), "outcome": r["outcome"], "panic_message": r["text"]},
+                         "rendered": r["text"], "where": [], "unit": "replay"})
+    return viol, {"kind": "native replay (testing, not proof)", "inputs": len(paths), "outcomes": {os.path.basename(r["file"]): r["outcome"] for r in recs}}
+
+
 def run(prop, tier):
+    if prop == "C16":
+        v, rep = c16_ledger()
+        return {"violations": v, "report": {"ledger_inputs": rep}}
     if prop == "C20":
         v, rep = c20_alphabet()
         return {"violations": v, "report": {"template_alphabet": rep}}
